@@ -20,7 +20,7 @@ the patch; the demonstration fails with it and passes without it) and then ran t
 check with the patch applied to `/repo` (`git -C /repo apply …; ./check <ID> --tier quick; git -C /repo
 checkout -- .`). A (and B) were written before the checks existed; C and D after, by authors told to
 avoid the sites A/B had used. {len(metas)} changes; {own} are reported by their own property's quick check
-at `VERIF_SEED=1`, {any_} by at least one check. The second batch was initially missed in 14 cases; every
+at `VERIF_SEED=1`, {any_} by at least one check. The second batch was initially missed in 18 of 36 cases; every
 miss was traced to the *generator* (a shape it never produced), the generator was extended (see §8),
 and the run repeated — the table shows the final state. A finding signature that was too broad hid
 two of them (C07-D, C09-C); both findings were narrowed to their actual root cause.
